@@ -222,7 +222,15 @@ class C04(RecorderProp):
                 return ['exc', type(ex).__name__]
         return {'end': end_of(lambda: Op().execute()), 'twinEnd': end_of(lambda: Twin().execute())}
 
+    def thread_bad(self, case, res):
+        """is this run of a thread scenario a violation of the property? (C05 / C18 reuse the exploration with their own test)"""
+        want = T.expected(case)
+        return res['results'] != want or res['main'] != [['ret', 'done']] or res['outcome'] != 'finished'
+
     def run_impl(self, case):
+        return C04.run_threads_or_other(self, case)
+
+    def run_threads_or_other(self, case):
         if case.get('kind') == 'iter':
             return self.run_iter_case(case)
         if case.get('kind') == 'odd':
@@ -233,7 +241,7 @@ class C04(RecorderProp):
         if case.get('explore') is None:
             r = T.run_threads_case(case)
             r['_explored'] = 1
-            r['_bad_schedule'] = None if r['outcome'] == 'skipped' or (r['results'] == want and r['main'] == [['ret', 'done']] and r['outcome'] == 'finished') else r['_choices']
+            r['_bad_schedule'] = None if r['outcome'] == 'skipped' or not self.thread_bad(case, r) else r['_choices']
             return r
 
         stuck = [0]
@@ -258,7 +266,7 @@ class C04(RecorderProp):
             skipped += res['outcome'] == 'skipped'
             if skipped >= 3:
                 break       # (a tree whose locks get in the way of the controlled schedule: each such schedule costs a watchdog period)
-            if res['outcome'] != 'skipped' and (res['results'] != want or res['main'] != [['ret', 'done']] or res['outcome'] != 'finished'):
+            if res['outcome'] != 'skipped' and self.thread_bad(case, res):
                 first_bad = res
                 first_bad['_bad_schedule'] = res['_choices']
                 break
